@@ -8,6 +8,8 @@ from ..runner import Sub
 from .c04 import dist_fn
 
 ID = 'C05'
+TECHNIQUE = 'model-based PBT over the history k = 0..n+1 (complete chain) + single refinement steps on larger curves'
+LEVEL_TEXT = 'Exploration: Size, nesting, farthest-point and max-score clauses checked at every chain step; chains are complete only for n <= 30|100. Finds counter-examples (shrunk to a replay file); never proves absence.'
 RULE = ('Case = (performance curve, distance, ordering); the history is the complete chain rdp_fixed(k) for '
         'k = 0, 1, ..., n+1 on that curve, checked step by step: |S_k| = min(max(k,2), n); S_k subset of '
         'S_{k+1} with exactly one new index s; s strictly inside a segment (l, r) of S_k; s is a farthest '
